@@ -94,7 +94,8 @@ def run_case(spec):
     from moPepGen.cli.parse_reditools import parse_reditools
     rng = random.Random(spec['seed'])
     ref = refgen.make_reference(rng, n_genes=rng.randint(1, 4), isoforms=(1, 3), n_chroms=rng.randint(1, 2), nf_p=0.3,
-                                min_exons=1, max_exons=4, exon_len=(15, 80), intron_len=(10, 50))
+                                min_exons=1, max_exons=4, exon_len=(15, 80), intron_len=(10, 50),
+                                overlap_p=0.35 if spec.get('overlap', True) else 0.0)
     wd = drivers.case_dir('c14-')
     viol = []
     counters = {'cases': 1}
@@ -193,31 +194,40 @@ def run_case(spec):
                     rest -= target
                 counts[refb] = rest
                 gcov = rng.choice([str(thr['min_coverage_dna'] - 1), str(thr['min_coverage_dna']), str(thr['min_coverage_dna'] + 5), '-1', '-'])
-                g_ = gene.genomic2g(p)
-                # AnnotateTable lists the transcripts whose genomic range contains the site
-                txs = [t for t in gene.txs if t.exons[0][0] <= g_ < t.exons[-1][1] and rng.random() < 0.85]
+                # AnnotateTable lists the transcripts whose genomic range contains the site - of EVERY gene overlapping it
+                # (overlapping / antisense genes), in no particular order
+                txs = []
+                for g2 in ref.genes:
+                    if g2.chrom != gene.chrom or not g2.start <= p < g2.end:
+                        continue
+                    gq = g2.genomic2g(p)
+                    txs += [t for t in g2.txs if t.exons[0][0] <= gq < t.exons[-1][1] and rng.random() < 0.85]
                 if not txs:
                     continue
+                rng.shuffle(txs)
+                if len({t.gene.id for t in txs}) > 1:
+                    counters['redi_multi_gene_sites'] = counters.get('redi_multi_gene_sites', 0) + 1
                 sep = rng.choice([',', '&', '$'])
                 tid = sep.join(f'{t.id}-transcript' for t in txs)
                 if rng.random() < 0.3:
                     tid += sep + f'{gene.id}-gene'
                 rows.append('\t'.join([gene.chrom, str(p + 1), refb, '1' if gene.strand == 1 else '0', str(total), '38.5',
                                        '[' + ', '.join(str(counts[b]) for b in order) + ']', ' '.join(refb + b for b in alts),
-                                       '0.5', gcov, '30', '-', '-', '-', 'transcript', gene.id, tid]))
+                                       '0.5', gcov, '30', '-', '-', '-', 'transcript',
+                                       sep.join(dict.fromkeys(t.gene.id for t in txs)), tid]))
                 n_sites += 1
                 tot = sum(counts.values())
                 if tot < thr['min_coverage_rna']:
                     continue
                 if gcov != '-1' and (gcov == '-' or int(gcov) < thr['min_coverage_dna']):
                     continue
-                g = gene.genomic2g(p)
                 for b in alts:
                     if counts[b] < thr['min_coverage_alt'] or counts[b] / tot < thr['min_frequency_alt']:
                         continue
                     for t in txs:
+                        g = t.gene.genomic2g(p)      # position in the coordinates of the transcript's OWN gene
                         if t.gene2tx(g) is not None:
-                            expect.add((gene.id, g + 1, t.id, refb, b))
+                            expect.add((t.gene.id, g + 1, t.id, refb, b))
         rp = Path(wd) / 'redi.txt'
         rp.write_text('\n'.join(rows) + '\n')
         a = drivers.ref_namespace(wd)
@@ -256,10 +266,10 @@ def check(rep, tier, seed, specs=None, n_override=None):
                 'in both VEP conventions (two-position location; single position with the anchor base at either end), substitutions of 3-5 bases, placed '
                 'inside transcripts, on their first/last base and within 2 nt of the ends; oracle: REF == gene sequence at the record position and '
                 'applying the record to the gene sequence == re-extracting the gene from the edited chromosome; boundary events may be rejected but '
-                'never mis-placed; CLI run on the same rows (plain / gz). REDItools: annotated tables with counts at threshold-1 / threshold / '
+                'never mis-placed; CLI run on the same rows (plain / gz). REDItools: annotated tables (sites inside overlapping / antisense genes list the transcripts of every gene) with counts at threshold-1 / threshold / '
                 'threshold+1 for all four thresholds, multi-transcript annotations with the three separators; expected record set re-implemented. '
                 'non-trivial = >= 1 converted VEP event; distinct = (strands, kinds, placements, thresholds ...).')
     rep.absorb(results, lost)
-    for k in ('vep_events', 'vep_converted', 'vep_rejected', 'vep_cli_runs', 'redi_sites', 'redi_expected_records'):
+    for k in ('vep_events', 'vep_converted', 'vep_rejected', 'vep_cli_runs', 'redi_sites', 'redi_expected_records', 'redi_multi_gene_sites'):
         if not rep.counters.get(k):
             rep.inconclusive.append(f'monitor {k} had zero evaluations')
